@@ -44,5 +44,12 @@ DeclClauses(e) ==
           Cl("C11.wellformed_compiles", wf, ~rejected),
           Cl("C12.defect_class_is_malformed", e.defect # "-", ~wf) >>
 
-AnyCompileClauses(e) == IF e.kind = "decl" THEN DeclClauses(e) ELSE CompileClauses(e)
+(* an item that the declaration / the documented API promises must exist:  *)
+(* constants, constructors, operators in every borrow form, trait methods. *)
+(* e.prop names the property that promises the item.                       *)
+ItemClauses(e) == << Cl(e.prop \o ".item_exists", TRUE, e.verdict = "ok") >>
+
+AnyCompileClauses(e) == IF e.kind = "decl" THEN DeclClauses(e)
+                        ELSE IF e.kind = "item" THEN ItemClauses(e)
+                        ELSE CompileClauses(e)
 =============================================================================
